@@ -517,6 +517,9 @@ Sessions1(tier) ==      \* fam 1 and 5: twins, two circuits, cache and age
      \cup {<<warm, Tk(Bus(1, <<33>>), t1), Tk(c, t2)>> : c \in plain, t1 \in {1, 301}, t2 \in {0, 299}}
      \cup {<<Tk(c, t), Fnd(<<>>)>> : c \in plain, t \in {0, 301}}
      \cup {<<warm, Tk(Rd(T_nix), 0), Tk([Rd(T_temp) EXCEPT !.c = T_ca], 1), [Fnd(T_temp) EXCEPT !.fd = 1]>>}
+     \cup (LET cc == {[x EXCEPT !.cache = y] : x \in plain, y \in {"", "f", "m400"}}          \* three reads in a row: who refreshed what, when
+               first == IF tier = "thorough" THEN TickAll(cc) ELSE {Tk(x, t) : x \in plain \cup {warm}, t \in {0, 301}}
+           IN {<<a, b, c, [Fnd(<<>>) EXCEPT !.fd = 1]>> : a \in first, b \in TickAll(cc), c \in {Tk(x, t) : x \in cc, t \in {0, 299}}})
 Sessions2(tier) ==      \* fam 2: write
   LET rd == [Rd(T_temp) EXCEPT !.c = T_ca]
       ws == {Wr(T_ca, T_set, v) : v \in {<<55>>, <<51, 48, 48>>, <<49, 59, 50>>, <<120>>, <<>>, <<50, 53, 52>>, <<50, 53, 53>>}}
